@@ -54,11 +54,16 @@ class Pair:
         """The next put request (the first one, then those of cfg['more']) after a pause of gap ms."""
         from world import MODE
         over = {}
+        # C11: a put request of the HISTORY may address the same remote entity with another width of the entity-id field
+        dw = (self.w.cfg["more"][self.txn - 1] if self.txn >= 1 else self.w.cfg).get("putDIdW")
         if self.txn >= 1:
             m = self.w.cfg["more"][self.txn - 1]
             over = dict(trans_mode=None if m["putMode"] == "none" else MODE[m["putMode"]],
                         closure_requested=None if m["putClosure"] == "none" else m["putClosure"] == "true")
             Clock.now += gap
+        if dw:
+            from spacepackets.util import ByteFieldGenerator
+            over["destination_id"] = ByteFieldGenerator.from_int(dw, self.w.cfg["dId"])
         e = self.w.call("S", "put", self.w.put_request(**over))
         self.put_ok = e["ret"] == "true"
         self.txn += 1
